@@ -90,12 +90,12 @@ def parseEv (sc : SCfg) (bufs : Array Bytes) : Sx → Option (Event × Option (B
     let rs ← rs.nat?
     let re ← re.nat?
     let t ← parseTable tab
-    pure (.matched buf rs re (← off.nat?) (← optOf Sx.nat? ln), some (cutHaystack sc buf re, t))
+    pure (.matched buf rs re (← off.nat?) (← optOf Sx.nat? ln), some (shownHay sc buf rs re, t))
   | .list [.atom "c", k, b, off, ln, tab] => do
     let bytes ← b.bytes?
     let t ← parseTable tab
     pure (.context (← parseKind k) bytes (← off.nat?) (← optOf Sx.nat? ln),
-      some (cutHaystack sc bytes bytes.length, t))
+      some (shownHay sc bytes 0 bytes.length, t))
   | .list [.atom "brk"] => some (.contextBreak, none)
   | _ => none
 
@@ -116,9 +116,18 @@ def oracleOf (evs : List (Event × Option (Bytes × Table))) : Oracle :=
     (entries.findSome? fun e =>
       if e.1.length == hay.length && e.1 == hay then e.2.ans.get? pos else none).join
 
-/-- the haystack length each event's table must cover (`-` for a context break) -/
-def cutsOf (evs : List (Event × Option (Bytes × Table))) : String :=
-  " ".intercalate (evs.map fun e => match e.2 with | some (h, _) => toString h.length | none => "-")
+/-- what each event's table must cover: `START:END:FROM` — the matcher is shown `bytes[START..END]` and asked from
+position `FROM` (`-` for a context break). Line-oriented: the line's own content from 0 (0cdcce3); multi-line: the
+buffer cut after the look-ahead, from the start of the range. -/
+def cutOf (sc : SCfg) (bytes : Bytes) (rs re : Nat) : String :=
+  if sc.multiLine then s!"0:{(cutHaystack sc bytes re).length}:{rs}"
+  else s!"{rs}:{rs + (lineHaystack sc.lt bytes rs re).length}:0"
+
+def cutsOf (sc : SCfg) (evs : List (Event × Option (Bytes × Table))) : String :=
+  " ".intercalate (evs.map fun e => match e.1 with
+    | .matched buf rs re _ _ => cutOf sc buf rs re
+    | .context _ bytes _ _ => cutOf sc bytes 0 bytes.length
+    | .contextBreak => "-")
 
 def showData : Data → String
   | .text b => "t:" ++ toHex b
